@@ -94,8 +94,19 @@ def run(ctx):
     ri = repo_if[0]
     ok = raises_malformed(ri.body) and boolx.forced_outcome(ri.test, {"eapi == '-1'": False, "self.repo_id is None": False}) is True
     ctx.check("R1", init, ok, "gate:repo_id", "a repository id is rejected whenever an EAPI was given", node=ri)
-    # strong blockers: the gate sits where the second '!' is consumed
-    ctx.floor("R1", 7)
+    # the USE-default gate is evaluated on the flag AFTER its conditional marker (?/=) was stripped
+    strip_ifs = [i for i in ifs if isinstance(i.test, ast.Compare) and isinstance(i.test.ops[0], ast.In) and A.try_literal(i.test.comparators[0]) in ("=?", "?=")]
+    gate_ifs = [i for i in ifs if any(k.endswith(".options.has_use_dep_defaults") for k in boolx.atoms(i.test))]
+    ctx.require(strip_ifs and gate_ifs, "atom.__init__: conditional-marker strip or USE-default gate not found")
+    doms = g.dominators()
+    sn, gn = g.node_of(strip_ifs[0]), g.node_of(gate_ifs[0])
+    ctx.check("R1", init, sn in doms.get(gn, ()), "gate-after-marker-strip",
+              "the (+)/(-) EAPI gate runs after the trailing ?/= marker was stripped from the flag",
+              "the USE-default EAPI gate is evaluated before the ?/= marker is stripped: x(+)? / x(-)= escape the gate in EAPIs without USE defaults", node=gate_ifs[0])
+    # what the gate looks at is the stripped flag's last character
+    outer = [p for p in A.parents(gate_ifs[0]) if isinstance(p, ast.If)]
+    ctx.check("R1", init, bool(outer) and A.unparse(outer[0].test) == "x[-1] == ')'", "gate-on-paren", "the gate applies to every flag ending in ')'", node=gate_ifs[0])
+    ctx.floor("R1", 9)
 
     # ---- R2 EAPI option table -------------------------------------------------
     T = EapiTables(P)
@@ -168,7 +179,17 @@ def run(ctx):
     ctx.require(isinstance(p_, str), "cpv._pkg_re literal not found")
     c = rx.classes(p_)
     ctx.check("R3", cm, len(c) == 1 and c[0] == PMS_SLOT_FIRST | {"+"}, "_pkg_re", "package name chunks are [A-Za-z0-9+_]+", node=v)
-    ctx.floor("R3", 9)
+    # package names: the revision-tail rule needs name, version-like chunk and revision: three chunks
+    ipn = P.func("pkgcore.ebuild.cpv", "isvalid_pkg_name")
+    rev_ifs = [i for i in A.body_walk(ipn.node) if isinstance(i, ast.If) and "isvalid_rev(chunks[-1])" in A.unparse(i.test)]
+    ctx.require(rev_ifs, "isvalid_pkg_name: revision-tail test not found")
+    ats = boolx.atoms(rev_ifs[0].test)
+    ctx.check("R3", ipn, any(a_.replace(" ", "") in ("len(chunks)>=3", "len(chunks)>2") for a_ in ats) and isinstance(rev_ifs[0].test, ast.BoolOp) and isinstance(rev_ifs[0].test.op, ast.And),
+              "pkgname-rev-tail-needs-3", "the '<version>-rN' tail rule only applies to names of at least three chunks",
+              "isvalid_pkg_name applies the revision-tail rule to two-chunk names: chunks[-2] is then the head of the name itself, so virtual/7z-r1 is rejected", node=rev_ifs[0])
+    ver_tail = [i for i in A.body_walk(ipn.node) if isinstance(i, ast.If) and A.unparse(i.test) == "isvalid_version_re.match(chunks[-1])"]
+    ctx.check("R3", ipn, bool(ver_tail) and A.unparse(ver_tail[0].body[0]) == "return False", "pkgname-version-tail", "a name ending in '-<version>' is rejected")
+    ctx.floor("R3", 11)
 
     # ---- R4 render coverage and order ----------------------------------------
     st = atom.methods.get("__str__")
@@ -197,6 +218,27 @@ def run(ctx):
     txt = " ".join(A.str_constants(st.node))
     for sep in (":", "::", "/", "[", "]", "!"):
         ctx.check("R4", st, sep in txt, f"render-sep:{sep}", f"__str__ emits the {sep!r} delimiter")
+    # an emission may be suppressed by the ABSENCE of another attribute only where the grammar says so
+    NEG_OK = {("slot_operator", "slot"): "':=' / ':*' are written without a slot", ("blocks", "blocks_strongly"): "weak blocker '!' is the else of '!!'",
+              ("cpvstr", "op"): "plain form is the else of the =* form", ("op", "op"): "same attribute"}
+    for n in A.body_walk(st.node):
+        if not isinstance(n, (ast.AugAssign, ast.Assign)):
+            continue
+        emitted = A.attrs_of(n.value, "self")
+        if not emitted:
+            continue
+        child = n
+        for par in A.parents(n):
+            if par is st.node:
+                break
+            if isinstance(par, ast.If) and any(child is x or A.contains_node(x, child) for x in par.orelse):
+                for neg_attr in A.attrs_of(par.test, "self"):
+                    for e in emitted:
+                        ok = e == neg_attr or (e, neg_attr) in NEG_OK
+                        ctx.check("R4", st, ok, f"render-suppressed:{e}-by-{neg_attr}",
+                                  f"emission of {e!r} under `not ({A.unparse(par.test)})` is allowed by the grammar",
+                                  f"atom.__str__ only renders {e!r} when {neg_attr!r} is absent (`{A.unparse(n)}` sits in the else of `{A.unparse(par.test)}`): an atom with both loses {e!r} on a round trip", node=n)
+            child = par
     glob_if = [n for n in A.body_walk(st.node) if isinstance(n, ast.If) and A.unparse(n.test) == "self.op == '=*'"]
     ok = False
     if glob_if:
